@@ -74,6 +74,8 @@ def pairOp? (t : String) : Option (PairOp Cx × Float) :=
   | ["mod", s, x] => do some (.modulate (← cxList? x), ← parseFloat? s)
   | ["demod", s, y] => do some (.demodulate (← cxList? y), ← parseFloat? s)
   | ["eq", d, ns, v, data] => do some (.equalize (← cxList? data) (← ir? d ns v), 1.0)
+  | ["idx"] => some (.usedIndexes, 1.0)
+  | ["zp", n] => do some (.zeropadOf (← n.toNat?), 1.0)
   | _ => none
 
 def handle : List String → String
